@@ -114,7 +114,15 @@ def param_spec(draw, types=TYPES, for_schema=False):
 
     def value():
         if t in ("Integer", "Number"):
-            return _in_bounds_value(draw, cfg.get("bounds"), cfg.get("inclusive_bounds", (True, True)), t == "Integer")
+            v = _in_bounds_value(draw, cfg.get("bounds"), cfg.get("inclusive_bounds", (True, True)), t == "Integer")
+            if draw(st.integers(0, 7)) == 0:
+                # a bool is a number too (and is accepted as one): it must come back as the bool it was
+                b_ = draw(st.booleans())
+                lo_, hi_ = cfg.get("bounds") or (None, None)
+                il_, ih_ = cfg.get("inclusive_bounds", (True, True))
+                if (lo_ is None or (b_ >= lo_ if il_ else b_ > lo_)) and (hi_ is None or (b_ <= hi_ if ih_ else b_ < hi_)):
+                    return b_
+            return v
         if t == "String":
             if cfg.get("regex") is not None:
                 return draw(st.sampled_from(_REGEXES[cfg["regex"]][2]))
@@ -125,7 +133,7 @@ def param_spec(draw, types=TYPES, for_schema=False):
             return tuple(draw(st.lists(_leaf if not for_schema else _leaf, min_size=cfg["length"], max_size=cfg["length"])))
         if t in ("NumericTuple", "XYCoordinates"):
             n = 2 if t == "XYCoordinates" else cfg["length"]
-            return tuple(draw(st.lists(_fin, min_size=n, max_size=n)))
+            return tuple(draw(st.lists(st.one_of(_fin, _fin, _fin, st.booleans()), min_size=n, max_size=n)))
         if t == "Range":
             a = _in_bounds_value(draw, cfg.get("bounds"), cfg.get("inclusive_bounds", (True, True)), False)
             b = _in_bounds_value(draw, cfg.get("bounds"), cfg.get("inclusive_bounds", (True, True)), False)
@@ -215,7 +223,7 @@ def param_spec(draw, types=TYPES, for_schema=False):
     return (t, cfg, v1, v2)
 
 
-def build_class(specs, name="K"):
+def build_class(specs, name="K", extra_ns=None):
     """specs: list of (type, cfg, default, value) -> Parameterized class with parameters p0..pn."""
     ns = {}
     for i, (t, cfg, d, _v) in enumerate(specs):
@@ -232,7 +240,7 @@ def build_class(specs, name="K"):
         if isinstance(d, list) and appended and any(x in appended for x in d):
             in_decl = False
         ns[f"p{i}"] = (getattr(param, t)(default=d, **kw) if in_decl else getattr(param, t)(**kw), appended, d, in_decl)
-    K = type(name, (param.Parameterized,), {n: v[0] for n, v in ns.items()})
+    K = type(name, (param.Parameterized,), dict({n: v[0] for n, v in ns.items()}, **(extra_ns or {})))
     for n, (_p, appended, d, in_decl) in ns.items():
         for a in appended:
             K.param[n].objects.append(a)
